@@ -462,6 +462,33 @@ func setRoots(dir string, roots []any, file string) any {
 	return ok(string(out))
 }
 
+// files read by the same parser BEFORE the roots are set must not widen what is readable afterwards
+func setRootsAfterReads(dir string, pre []any, roots []any, file string) any {
+	cwd, _ := os.Getwd()
+	defer os.Chdir(cwd)
+	if err := os.Chdir(dir); err != nil {
+		return []any{"err", "chdir"}
+	}
+	p, err := bkl.New()
+	if err != nil {
+		return []any{"err", "new"}
+	}
+	for _, f := range pre {
+		if err := p.MergeFileLayers(f.(string)); err != nil {
+			return []any{"pre-err"}
+		}
+	}
+	for _, r := range roots {
+		if err := p.SetRoot(r.(string)); err != nil {
+			return []any{"setroot-err"}
+		}
+	}
+	if err := p.MergeFileLayers(file); err != nil {
+		return []any{"merge-err"}
+	}
+	return []any{"merge-ok"}
+}
+
 func yamlParse(args []any) any {
 	r := map[string]any{}
 	for _, a := range args[0].([]any) {
@@ -594,6 +621,8 @@ func runCase(c any) (res any) {
 		return setRoot(l[1].(string))
 	case "setroots":
 		return setRoots(l[1].(string), l[2].([]any), l[3].(string))
+	case "setroots-after-reads":
+		return setRootsAfterReads(l[1].(string), l[2].([]any), l[3].([]any), l[4].(string))
 	case "yaml":
 		return yamlParse(l[1:])
 	case "enc":
